@@ -82,7 +82,7 @@ class PoolWorld(World):
             close = {"after": rng.choice([0, 0, 0.001, 0.01, 0.05, 0.3])}
             if layer == "pool" and rng.random() < 0.4:
                 close["during"] = rng.randrange(njobs)      # close() in another thread while the accept thread keeps submitting
-        p_stall = rng.choice([0.0, 0.0, 0.01, 0.03]) if layer == "pool" else 0.0
+        p_stall = rng.choice([0.0, 0.0, 0.01, 0.03]) if layer == "pool" else rng.choice([0.0, 0.0, 0.0, 0.01])
         if close and "during" in close:
             p_stall = rng.choice([0.02, 0.05, 0.1])
         return {"layer": layer, "size": size, "min": mn, "jobs": jobs, "close": close, "p_stall": p_stall,
@@ -380,7 +380,7 @@ class PoolWorld(World):
                     sched.sleep(j["gap"])
             for t in threads:
                 t.join(120.0)
-            sched.settle(5.0)
+            sched.quiesce()
             ctx.nontrivial = bool(sched.choices) and (overlap[1] >= 2 or any(r["state"] == "refused" for r in results.values()))
             for i, r in sorted(results.items()):
                 stt = r["state"]
@@ -389,7 +389,7 @@ class PoolWorld(World):
                     ctx.probe("refused_on_wire")
                     if "free workers" not in str(r.get("reason", "")):
                         ctx.violate("refusal-without-reason", "", "client %d: CONNECTFAIL %r" % (i, r.get("reason")))
-                    if r["t1"] - r["t0"] > 1.0:
+                    if r["t1"] - r["t0"] > 1.0 and not sched.stalls:
                         ctx.violate("refusal-not-immediate", "", "client %d waited %.3fs for its refusal" % (i, r["t1"] - r["t0"]))
                     if served.get(r.get("conn"), 0):
                         ctx.violate("refused-job-ran", "", "client %d was refused but its connection job ran" % i)
@@ -399,7 +399,7 @@ class PoolWorld(World):
                         ctx.violate("job-ran-twice" if n > 1 else "job-dropped", "", "client %d: connection job ran %d times" % (i, n))
                     if r.get("ok") != plan["jobs"][i]["calls"]:
                         ctx.violate("connection-not-served", "", "client %d got %r of %d replies" % (i, r.get("ok"), plan["jobs"][i]["calls"]))
-                    if r["t1"] - r["t0"] > 1.0:
+                    if r["t1"] - r["t0"] > 1.0 and not sched.stalls:
                         ctx.violate("client-left-waiting", "", "client %d waited %.3fs for CONNECTOK" % (i, r["t1"] - r["t0"]))
                 elif stt == "dropped":
                     ctx.violate("connection-dropped-silently", "", "client %d: connection closed without any reply" % i)
@@ -430,7 +430,7 @@ class PoolWorld(World):
                     ctx.violate("close-deadlock", "", "Daemon.shutdown() did not return within 60 virtual seconds")
                     return
                 sched.sleep(1.0)
-                sched.settle(5.0)
+                sched.quiesce()
                 alive = [w for w in workers if sched.sim_thread_of(w) is not None and sched.sim_thread_of(w).state != "done"]
                 if alive:
                     ctx.violate("worker-not-exited", "", "%d worker threads alive after shutdown" % len(alive))
